@@ -77,6 +77,9 @@ def _worker_task(prop: str, tier: str, oid: str, pidx: int, known_fps: List[str]
     out: Dict[str, Any] = {"oid": oid, "pidx": pidx}
     try:
         mod = importlib.import_module("vt.props." + prop)
+        from vt import xh_patches
+
+        xh_patches.apply()  # before any stub: CrossHair's registration pass resets the patch table
         if not _WORKER_STATE.get(prop):
             if hasattr(mod, "setup_symbolic"):
                 mod.setup_symbolic()
